@@ -7,4 +7,5 @@ Extraction "model.ml" new_dense new_sparse complete_graph complete_partite path 
   induced_view g_N g_M g_degrees g_neighbours g_is_edge complement_dense line_graph rook
   split_edge contract e_val add_edges sparse_of_edges d_empty
   h_new_dense h_view h_write h_new_sparse hs_view hn_write
-  graph6_decode_graph sparse6_decode_graph.
+  graph6_decode_graph sparse6_decode_graph
+  e_add_edge e_remove_edge e_add_vertex e_remove_vertex.
